@@ -18,6 +18,7 @@ import NR.StopGen
 import NR.Links
 import NR.RangeCheck
 import NR.Sched
+import NR.Mix
 namespace NR.Driver
 open NR
 
@@ -451,8 +452,45 @@ def stepHyp (inst? : Option Spec.Inst) (ws : List String) : String :=
   | none, _ => "hyp no-instance"
   | _, _ => "bad-op"
 
+/-- Items of the no-mix lines: `n` (none), `i:<name>:<q>`, `r:<name>:<q>`. -/
+def parseMixItem (w : String) : Option Mix.Item :=
+  match w.splitOn ":" with
+  | ["n"] => some .none
+  | ["i", n, q] => q.toNat?.map (Mix.Item.ins n)
+  | ["r", n, q] => q.toNat?.map (Mix.Item.rem n)
+  | _ => none
+
+def parseMixItems (s : String) : Option (List Mix.Item) :=
+  if s = "-" then some [] else allSome ((s.splitOn ",").map parseMixItem)
+
+/-- `mix st <items of a route>`: what is on board after every stop according to NR.Mix.upd (`name:qty`, the name only
+while something is on board), `error` if the updater fails.
+`mix est <items of the route> <items of the unit in move order> <planned stops in front of each>`: NR.Mix.est on the
+positions of that placement (1 = violated), and whether the updater succeeds on the route the move produces. -/
+def stepMix (ws : List String) : String :=
+  match ws with
+  | ["st", items] =>
+    match parseMixItems items with
+    | some its =>
+      match Mix.states Mix.init its with
+      | some sts => "mix st " ++ showCsv (sts.map (fun s => (if s.qty = 0 then "" else s.name) ++ ":" ++ toString s.qty))
+      | none => "mix st error"
+    | none => "bad-op"
+  | ["est", old, xs, gaps] =>
+    match parseMixItems old, parseMixItems xs, parseNatsCsv gaps with
+    | some old, some xs, some gaps =>
+      match Mix.states Mix.init old with
+      | some sts =>
+        let e := Mix.est (Mix.positions sts xs gaps)
+        let ok := (Mix.run Mix.init (Mix.newRoute old xs gaps 0)).isSome
+        "mix est " ++ (if e then "1" else "0") ++ (if !e && !ok then " accepted-but-updater-fails" else "")
+      | none => "mix est old-route-invalid"
+    | _, _, _ => "bad-op"
+  | _ => "bad-op"
+
 def step (st : State) (line : String) : State × String :=
   match words line with
+  | "mix" :: ws => (st, stepMix ws)
   | "hyp" :: ws => (st, stepHyp st.inst ws)
   | "eng" :: ws => let (e, o) := stepEng st.inst st.eng ws; ({ st with eng := e }, o)
   | "rc" :: ws => let (r, o) := stepRc st.rc ws; ({ st with rc := r }, o)
